@@ -457,6 +457,13 @@ def run_check(pid, tier, seed, replay):
             except Exception as ex:  # an oracle crash must not hide anything: report as a failure to check
                 failures.append({"kind": "oracle", "name": "oracle crashed", "detail": repr(ex)})
 
+    cross = P.get("cross_oracle")
+    if cross:
+        try:
+            witnesses.extend(cross(all_runs))
+        except Exception as ex:
+            failures.append({"kind": "oracle", "name": "cross-run oracle crashed", "detail": repr(ex)})
+
     # known findings
     known = load_known()
     unlisted = []
